@@ -9,6 +9,8 @@ import (
 	"fmt"
 	"math"
 	"os"
+	"os/exec"
+	"path/filepath"
 	"sort"
 	"strconv"
 	"strings"
@@ -57,7 +59,8 @@ type Op struct {
 	Reject bool   `json:",omitempty"`
 	Mint   int64  `json:",omitempty"`
 	Maxt   int64  `json:",omitempty"`
-	Sel    []int  `json:",omitempty"` // series selected by a delete / query (nil = all)
+	Sel    []int  `json:",omitempty"` // series selected by a delete / query / eviction (nil = all)
+	OldRef bool   `json:",omitempty"` // append with the ref last returned for this label set (possibly outdated)
 }
 
 // History is a full case.
@@ -114,6 +117,10 @@ type Run struct {
 	Did map[string]int
 	// Lenient switches off append error-class checking (C01 does not own admission).
 	CheckAdmission bool
+	// AttributionOnly (C22): the model only records, per series, every (t, value) the
+	// implementation accepted; queries are checked for soundness of attribution (every
+	// returned sample was appended to that label set at that timestamp), not for completeness.
+	AttributionOnly bool
 	// failSeries is the series of the last Compare failure; commitSigs maps series to a
 	// known-finding signature whose trigger pattern occurred in the last commit.
 	failSeries int
@@ -144,6 +151,9 @@ type Run struct {
 	// database was reopened while such a series had no data in the head (it is in neither the
 	// snapshot nor, after the snapshot's WAL offset, the replayed WAL, so its ref number is free
 	// again); SnapRefRisk is set when a series is created after that.
+	// lastRef is the ref most recently returned for each series' label set (kept across
+	// appenders and restarts, as a scrape cache would).
+	lastRef            map[int]storage.SeriesRef
 	createdThisSession map[int]bool
 	ghostAtReopen      bool
 	SnapRefRisk        bool
@@ -301,7 +311,7 @@ func Start(h History, rec *ev.Rec) (*Run, error) {
 		return nil, err
 	}
 	r := &Run{Cfg: h.Cfg, Dir: dir, Rec: rec, Apps: map[int]*appState{}, Did: map[string]int{}, CheckAdmission: true,
-		oooDeleteSurvivors: map[int]map[int64]bool{}, deletedRanges: map[int][][2]int64{}, hiddenCands: map[int]map[int64]bool{}, oooULIDs: map[string]bool{}, riskBound: math.MinInt64, createdThisSession: map[int]bool{}, headDeleted: map[int]map[int64]int{}, everCreated: map[int]bool{}, dupStage: map[int]int{}, creator: map[int]int{}, established: map[int]bool{}, tainted: map[int]bool{}, taintedReopened: map[int]bool{}}
+		oooDeleteSurvivors: map[int]map[int64]bool{}, deletedRanges: map[int][][2]int64{}, hiddenCands: map[int]map[int64]bool{}, oooULIDs: map[string]bool{}, riskBound: math.MinInt64, lastRef: map[int]storage.SeriesRef{}, createdThisSession: map[int]bool{}, headDeleted: map[int]map[int64]int{}, everCreated: map[int]bool{}, dupStage: map[int]int{}, creator: map[int]int{}, established: map[int]bool{}, tainted: map[int]bool{}, taintedReopened: map[int]bool{}}
 	r.M = tm.New(h.Cfg.NSeries, h.Cfg.ChunkRange, h.Cfg.OOOWindow)
 	if err := r.open(); err != nil {
 		os.RemoveAll(dir)
@@ -393,7 +403,7 @@ func (r *Run) Exec(op Op) error {
 	err := r.exec(op)
 	if r.DB != nil {
 		switch op.K {
-		case "compact", "flush", "compactooo", "cleantomb", "reopen":
+		case "compact", "flush", "compactooo", "cleantomb", "reopen", "evictstale", "evictsel", "crashreopen":
 			r.scanBlocks()
 		}
 	}
@@ -445,7 +455,10 @@ func (r *Run) exec(op Op) error {
 			}
 			r.createdThisSession[op.S] = true
 		}
-		want := r.M.Append(a.model, op.S, op.T, op.V, reject)
+		var want tm.Outcome = tm.Unknown
+		if !r.AttributionOnly {
+			want = r.M.Append(a.model, op.S, op.T, op.V, reject)
+		}
 		r.everCreated[op.S] = true
 		r.noteAdd(op.A, op.S, op.T, a.model.W)
 		ls := SeriesLabels(op.S)
@@ -464,17 +477,31 @@ func (r *Run) exec(op Op) error {
 		case tm.KFHist:
 			fh = tm.MkHist(op.V.H).ToFloat(nil)
 		}
+		refArg := a.refs[op.S]
+		if op.OldRef && r.lastRef[op.S] != 0 {
+			refArg = r.lastRef[op.S]
+			r.Did["old-ref"]++
+		}
 		if r.Cfg.V2 {
-			ref, err = a.v2.Append(a.refs[op.S], ls, 0, op.T, fv, h, fh, storage.AOptions{RejectOutOfOrder: reject})
+			ref, err = a.v2.Append(refArg, ls, 0, op.T, fv, h, fh, storage.AOptions{RejectOutOfOrder: reject})
 		} else if h != nil || fh != nil {
-			ref, err = a.v1.AppendHistogram(a.refs[op.S], ls, op.T, h, fh)
+			ref, err = a.v1.AppendHistogram(refArg, ls, op.T, h, fh)
 		} else {
-			ref, err = a.v1.Append(a.refs[op.S], ls, op.T, fv)
+			ref, err = a.v1.Append(refArg, ls, op.T, fv)
+		}
+		if err == nil {
+			r.lastRef[op.S] = ref
 		}
 		cls := errClass(err)
 		r.Trace = append(r.Trace, fmt.Sprintf("appender %d: append series %d t=%d %v reject=%v -> %s (model: %s; window minValid=%d headMaxT=%d ooo=%d)", op.A, op.S, op.T, op.V, reject, cls, want, a.model.W.MinValid, a.model.W.HeadMaxT, a.model.W.OOO))
 		if err == nil {
 			a.refs[op.S] = ref
+		}
+		if r.AttributionOnly {
+			if err == nil {
+				r.M.Series[op.S].StoreOptional(op.T, op.V)
+			}
+			return nil
 		}
 		if want == tm.Unknown {
 			// the model queued it as "possibly stored"; if the implementation rejected it, un-queue
@@ -517,6 +544,9 @@ func (r *Run) exec(op Op) error {
 		r.Trace = append(r.Trace, fmt.Sprintf("appender %d: commit -> %v", op.A, err))
 		if err != nil {
 			return r.failf("Commit returned an error: %v", err)
+		}
+		if r.AttributionOnly {
+			return nil
 		}
 		r.noteClose(op.A, a.model.Pending)
 		for _, p := range a.model.Pending {
@@ -566,6 +596,9 @@ func (r *Run) exec(op Op) error {
 		r.Trace = append(r.Trace, fmt.Sprintf("delete [%d,%d] series %v -> %v", op.Mint, op.Maxt, op.Sel, err))
 		if err != nil {
 			return r.failf("Delete returned an error: %v", err)
+		}
+		if r.AttributionOnly {
+			return nil
 		}
 		sel := op.Sel
 		if sel == nil {
@@ -685,10 +718,91 @@ func (r *Run) exec(op Op) error {
 		for s := range r.tainted {
 			r.taintedReopened[s] = true
 		}
+	case "evictstale", "evictsel":
+		if len(r.Apps) > 0 {
+			return nil
+		}
+		var err error
+		if op.K == "evictstale" {
+			err = r.DB.CompactStaleHead()
+		} else {
+			var refs []storage.SeriesRef
+			for _, si := range op.Sel {
+				if ref := r.lastRef[si]; ref != 0 {
+					refs = append(refs, ref)
+				}
+			}
+			err = r.DB.CompactSelectedSeries(refs)
+		}
+		r.Trace = append(r.Trace, fmt.Sprintf("%s %v -> %v; blocks %s", op.K, op.Sel, err, r.blocksString()))
+		if err != nil {
+			return r.failf("%s returned an error: %v", op.K, err)
+		}
+		r.syncEvicted()
+		r.noteGC()
+	case "crashreopen":
+		if len(r.Apps) > 0 {
+			return nil
+		}
+		// unclean shutdown: continue on a copy of the live directory
+		nd, err := os.MkdirTemp("", "tsdbrun-crash")
+		if err != nil {
+			return nil
+		}
+		os.Remove(nd)
+		if out, err := exec.Command("cp", "-r", r.Dir, nd).CombinedOutput(); err != nil {
+			return r.failf("cp: %v %s", err, out)
+		}
+		os.Remove(filepath.Join(nd, "lock"))
+		_ = r.DB.Close()
+		os.RemoveAll(r.Dir)
+		r.Dir, r.DB = nd, nil
+		r.Trace = append(r.Trace, "unclean shutdown (directory copied while open)")
+		if err := r.open(); err != nil {
+			return err
+		}
+		amv, _ := r.DB.Head().AppendableMinValidTime()
+		r.Trace = append(r.Trace, fmt.Sprintf("tsdb.Open; head min=%d max=%d appendableMinValid=%d; blocks %s", r.DB.Head().MinTime(), r.DB.Head().MaxTime(), amv, r.blocksString()))
+		r.createdThisSession = map[int]bool{}
+		r.noteHeadDeleted(2, 3)
+		for s, st := range r.dupStage {
+			if st == 1 || st == 3 {
+				r.dupStage[s] = st + 1
+			}
+		}
+		r.M.Restarted(r.DB.Head().MinTime() != math.MaxInt64, r.inOrderBlocksMaxT())
+		r.noteGC()
+		for s := range r.tainted {
+			r.taintedReopened[s] = true
+		}
 	case "query":
 		return r.CheckQuery(op.Mint, op.Maxt, op.Sel)
 	}
 	return nil
+}
+
+// syncEvicted forgets the in-order admission state of series that an eviction
+// (stale-series / selected-series compaction) removed from the head. Which series were
+// evicted is read from the head's index; their data stays queryable from the new blocks.
+func (r *Run) syncEvicted() {
+	ir, err := r.DB.Head().Index()
+	if err != nil {
+		return
+	}
+	defer ir.Close()
+	for i, ser := range r.M.Series {
+		if !ser.HasLast {
+			continue
+		}
+		p, err := ir.Postings(context.Background(), "s", strconv.Itoa(i))
+		if err != nil {
+			continue
+		}
+		if !p.Next() {
+			ser.HasLast, ser.Uncertain = false, false
+			r.Did["evicted-series"]++
+		}
+	}
 }
 
 func (r *Run) inOrderBlocks() string {
@@ -1018,7 +1132,7 @@ func RunAll(h History, rec *ev.Rec, setup func(r *Run)) (*Run, error) {
 			return r, err
 		}
 		switch op.K {
-		case "commit", "delete", "compact", "flush", "compactooo", "cleantomb", "reopen", "mmap":
+		case "commit", "delete", "compact", "flush", "compactooo", "cleantomb", "reopen", "mmap", "evictstale", "evictsel", "crashreopen":
 			if len(r.Apps) == 0 || op.K == "commit" {
 				r.failSeries, r.failExtra, r.failMissing = -1, false, false
 				if err := r.CheckQuery(math.MinInt64, math.MaxInt64, nil); err != nil {
@@ -1034,7 +1148,7 @@ func RunAll(h History, rec *ev.Rec, setup func(r *Run)) (*Run, error) {
 					if r.failExtra && r.headDeleted[r.failSeries][r.failT] == 3 {
 						return r, ev.FailSig(SigHeadDeleteLost, "%s", err.Error())
 					}
-					if r.failMissing && op.K == "reopen" && r.failT < r.riskBound {
+					if r.failMissing && (op.K == "reopen" || op.K == "crashreopen") && r.failT < r.riskBound {
 						if p := r.M.Series[r.failSeries].Pts[r.failT]; p != nil && !p.WasOOO {
 							return r, ev.FailSig(SigMixedBound, "%s", err.Error())
 						}
